@@ -2,6 +2,7 @@
 files, high-compatibility contexts, later assignments, queries, several writes, several files in one process) and the
 runner that executes each program on the implementation and on the Coq model and compares them step by step."""
 import copy
+import json
 import specgen
 import apimodel
 import filemodel
@@ -192,12 +193,46 @@ def add_queries(rng, prog):
     return out
 
 
+def add_nofmt(rng, prog):
+    """add_no_format_frame_data calls for the NO-FORMAT objects of the program (payloads as bytes / bytearray / text, sizes
+    0 .. several visible records), placed anywhere after the object's creation."""
+    created = -1
+    nf = []          # (position in prog, creation index, logical file)
+    for pos, s in enumerate(prog):
+        if s['op'] in ('origin', 'add', 'channel', 'frame'):
+            created += 1
+            if s.get('type') == 'no_format':
+                nf.append((pos, created, s.get('lf', 0)))
+        elif s['op'] == 'newfile':
+            created = -1
+            nf = []
+    if not nf:
+        return prog
+    out = list(prog)
+    end = max(i for i, s in enumerate(out) if s['op'] != 'write') + 1
+    inserts = []
+    for pos, ci, lf in nf:
+        for _ in range(rng.choice([0, 1, 2, 3])):
+            n = rng.choice([0, 1, 5, 11, 12, 100, 300, 9000])
+            kind = rng.choice(['bytes', 'bytes', 'bytearray', 'text'])
+            if kind == 'text':
+                pl = {'kind': 'text', 'text': ''.join(rng.choice('abcXYZ 019-_') for _ in range(min(n, 400)))}
+            else:
+                pl = {'kind': kind, 'hex': bytes(rng.randrange(256) for _ in range(n)).hex()}
+            inserts.append((rng.randrange(pos + 1, end + 1), {'op': 'nofmt', 'lf': lf, 'obj': R.r_ref(ci), 'payload': pl}))
+    for at, step in sorted(inserts, key=lambda x: -x[0]):
+        out.insert(at, step)
+    return out
+
+
 def gen_program(rng, flavor=None, vrl=None):
     flavor = flavor or rng.choice(['valid', 'valid', 'rejects', 'rejects', 'assign', 'queries', 'mixed', 'rewrite'])
     prog, spec = base_program(rng, vrl=vrl or rng.choice([128, 1024, 8192]))
     for s0 in prog:
         if s0['op'] == 'origin':
             s0['_fh_id'] = spec['lfs'][0]['fh_id']
+    if rng.random() < 0.6:
+        prog = add_nofmt(rng, prog)
     if flavor in ('rejects', 'mixed'):
         prog = inject_rejects(rng, prog)
     if flavor in ('assign', 'mixed'):
@@ -459,6 +494,73 @@ def gen_hc(rng):
     if rng.random() < 0.5:
         prog.append({'op': 'add', 'lf': 0, 'type': 'axis', 'name': specgen.r_str('lower case after the context'), 'set_name': None, 'origin': None, 'kw': {}})
     return prog
+
+
+def rewrite_history(rng):
+    """P; write; Q; write in one process, against P; Q; write in a fresh process. Q only edits the specification:
+    assignments (incl. values of another kind) and origin_reference changes to another origin of the logical file."""
+    prog, _ = gen_program(rng, flavor='valid')
+    body = [s for s in prog if s['op'] != 'write']
+    fh = next((s.get('_fh_id') for s in body if s['op'] == 'origin'), 'H')
+    body.append({'op': 'origin', 'lf': 0, 'name': specgen.r_str('ORIGIN-77'), 'set_name': None, 'origin': specgen.r_int(77), '_fh_id': fh,
+                 'kw': {'file_set_number': specgen.r_int(3), 'creation_time': specgen.r_str('2020/01/01 00:00:00')}})
+    created = [s for s in body if s['op'] in ('origin', 'add', 'channel', 'frame')]
+    if not any(s['op'] == 'nofmt' for s in body):
+        # make sure there is a NO-FORMAT object with data records: its identity opens every one of them
+        body.append({'op': 'add', 'lf': 0, 'type': 'no_format', 'name': specgen.r_str('NF-DATA'), 'set_name': None, 'origin': None,
+                     'kw': {'consumer_name': specgen.r_str('X')}})
+        ci = len(created)
+        created.append(body[-1])
+        for pl in ({'kind': 'bytes', 'hex': '00ff10'}, {'kind': 'text', 'text': 'second packet'}):
+            body.append({'op': 'nofmt', 'lf': 0, 'obj': specgen.r_ref(ci), 'payload': pl})
+    q = rekind_assignments(rng, body, limit=4)
+    tail = [s for s in add_assignments(rng, body) if s['op'] == 'assign' and s not in body
+            and s['_type'] not in ('calibration_measurement', 'parameter', 'computation', 'channel', 'frame')]
+    q += tail[:3]
+    # an arbitrary Python object is written through str(): its repr holds a memory address, which differs between processes
+    q = [x for x in q if '"other"' not in json.dumps(x.get('raw'))]
+    movable = [i for i, s in enumerate(created) if s['op'] != 'origin' and s.get('lf', 0) == 0]
+    rng.shuffle(movable)
+    # objects that open indirectly formatted records (NO-FORMAT objects with data, frames) first: their identity is in the data records too
+    movable.sort(key=lambda i: 0 if (created[i].get('type') == 'no_format' or created[i]['op'] == 'frame') else 1)
+    for i in movable[:rng.choice([1, 1, 2, 3])]:
+        q.append({'op': 'set_origin', 'obj': i, 'raw': specgen.r_int(77)})
+    # the header item is edited after construction (plain attributes: nothing is validated before the next write)
+    if rng.random() < 0.5:
+        if rng.random() < 0.7:
+            q.append({'op': 'set_header', 'lf': 0, 'field': 'seq', 'raw': specgen.r_int(rng.choice([2, 7, 9999999999, 20261001123, 12345678901]))})
+        else:
+            q.append({'op': 'set_header', 'lf': 0, 'field': 'id', 'raw': specgen.r_str(rng.choice([fh, fh, 'OTHER-ID', 'x' * 66, 'y' * 79]))})
+    rng.shuffle(q)
+    return body + [{'op': 'write'}] + q + [{'op': 'write'}], body + q + [{'op': 'write'}]
+
+
+
+def gen_value_lists(rng, n=None, bad=None):
+    """Multivalued integer attributes holding n values (1 .. 130, around 15/16/17), all in the range of their code or with
+    ONE value outside it at a random position: the value layer above write_struct must neither wrap nor drop it."""
+    R0 = specgen
+    n = n or rng.choice([1, 2, 15, 16, 17, 40, 130])
+    bad = rng.choice([None, None, 2 ** 31, -2 ** 31 - 1, 2 ** 32 + 5, 2 ** 40]) if bad is None else bad
+    vals = [rng.randrange(-2 ** 31, 2 ** 31) for _ in range(n)]
+    if rng.random() < 0.3:
+        vals = [rng.choice([-2, -1, 0, 1]) for _ in range(n)]
+    pos = None
+    if bad:
+        pos = rng.randrange(n)
+        vals[pos] = bad
+    tk, par = rng.choice([('axis', 'coordinates'), ('calibration_coefficient', 'coefficients'), ('calibration_coefficient', 'references')])
+    prog = [{'op': 'newfile', 'ident': 'MAIN-STORAGE-UNIT', 'seq': 1, 'vrl': rng.choice([128, 8192])},
+            {'op': 'lf', 'fh_id': R0.r_str('H'), 'fh_seq': R0.r_int(1)},
+            {'op': 'origin', 'lf': 0, 'name': R0.r_str('O'), 'set_name': None, 'origin': None, '_fh_id': 'H',
+             'kw': {'file_set_number': R0.r_int(1), 'creation_time': R0.r_str('2020/01/01 00:00:00')}},
+            {'op': 'add', 'lf': 0, 'type': tk, 'name': R0.r_str('V'), 'set_name': None, 'origin': None,
+             'kw': {par: R0.r_list([R0.r_int(v) for v in vals])}},
+            {'op': 'channel', 'lf': 0, 'name': R0.r_str('CH'), 'set_name': None, 'origin': None, 'kw': {},
+             'data': {'dtype': 'float64', 'rows': 2, 'width': None, 'seed': 9}},
+            {'op': 'frame', 'lf': 0, 'name': R0.r_str('F'), 'set_name': None, 'origin': None, 'kw': {}, 'channels': R0.r_list([R0.r_ref(2)])},
+            {'op': 'write'}]
+    return prog, {'type': tk, 'attribute': par, 'count': n, 'out_of_range': bad, 'position': pos}
 
 
 def gen_history(rng, n_files=None):
